@@ -912,7 +912,24 @@ def run_dataset(ctx, i):
     other = [u for u in ("userdef9", "userdef8", "userdef7") if u not in f["axes"]][0]
     ds = dclab.new_dataset({f["axes"][0]: q[:, 0].copy(), f["axes"][1]: q[:, 1].copy(),
                             other: rng.normal(size=n)})
-    pf = PolygonFilter(axes=f["axes"], points=f["points"], inverted=f["inverted"])
+    # the client builds the filter from a vertex buffer it keeps (and re-uses for its next
+    # polygon): a float64 array, a slice of a larger one or a read-only view of it
+    form = int(rng.integers(0, 4))
+    buf = np.array(f["points"], dtype=np.float64)
+    if form == 1:
+        big = np.zeros((len(buf) + 3, 2))
+        big[2:2 + len(buf)] = buf
+        buf = big
+        given = big[2:2 + len(f["points"])]
+    elif form == 2:
+        given = buf.view()
+        given.flags.writeable = False
+    elif form == 3:
+        given = f["points"]
+    else:
+        given = buf
+    ctx.count(f"dataset_filter_vertices_given_as[{form}]")
+    pf = PolygonFilter(axes=f["axes"], points=given, inverted=f["inverted"])
     ds.polygon_filter_add(pf)
     hist = []
     pf_expected = None
@@ -942,6 +959,15 @@ def run_dataset(ctx, i):
                     handed[k] = new
                     hist.append(["vertex moved (in the array handed to the setter)", k])
                 ctx.count("dataset_vertex_moves")
+            elif step and r < 0.25 and form != 3 and rng.random() < 0.5:
+                # the client re-uses its vertex buffer for the next polygon; the filter was
+                # constructed from the vertices as they were
+                if f["ptype"] == "grid":
+                    buf += rng.integers(-3, 4, size=2)
+                else:
+                    buf *= 1 + 0.37 * rng.random()
+                hist.append(["client re-used the buffer the filter was constructed from"])
+                ctx.count("dataset_client_buffer_reused")
             elif step and r < 0.25:
                 pf.inverted = not pf.inverted
                 hist.append(["invert", bool(pf.inverted)])
